@@ -290,6 +290,25 @@ func checkC05(root string, pc *PlanCase, perms [][]int) []Violation {
 	return vs
 }
 
+// replayPerms: the orders a saved case is replayed in - every order of up to four entries, otherwise the given
+// order, its reverse and every rotation (always the complete list).
+func replayPerms(n int) [][]int {
+	if n <= 4 {
+		return permutations(n)
+	}
+	id := identity(n)
+	out := [][]int{id}
+	rev := make([]int, n)
+	for i := range rev {
+		rev[i] = n - 1 - i
+	}
+	out = append(out, rev)
+	for r := 1; r < n; r++ {
+		out = append(out, append(append([]int(nil), id[r:]...), id[:r]...))
+	}
+	return out
+}
+
 func identity(n int) []int {
 	p := make([]int, n)
 	for i := range p {
@@ -368,7 +387,7 @@ func TestC05(t *testing.T) {
 			t.Fatal(err)
 		}
 		st.Record(&rc, true, "replay")
-		st.Report(t, &rc, checkC05(r2, &rc, permutations(min(len(rc.Contents), 4))))
+		st.Report(t, &rc, checkC05(r2, &rc, replayPerms(len(rc.Contents))))
 		return
 	}
 	u := universe()
